@@ -275,8 +275,11 @@ func Gen(rng *rand.Rand, class string, o GenOpts) *Batch {
 					if f.Len == 0 {
 						f.Len = 1
 					}
-				} else if rng.Intn(2) == 0 {
-					f.Len = rng.Intn(3)
+				} else {
+					if rng.Intn(2) == 0 {
+						f.Len = rng.Intn(3)
+					}
+					f.NilFreqs = rng.Intn(2) == 0
 				}
 				doc.Fields = append(doc.Fields, f)
 			}
